@@ -3,8 +3,8 @@ PROPERTY = "C17"
 LEVEL = "model_checking"
 FUNCTIONS = ["batchie.sampling.sample (MCMC and VI branches)", "batchie.core.ThetaHolder.add_theta / is_complete"]
 BOUNDS = {
-    "quick": "full runs: every b<=4, t in 1..4, n in 1..4 (solver-enumerated); one-iteration lemma: arbitrary b>=0, t>=1, n>=1 and iteration index (unbounded integers); generator selection: arbitrary seed, n_chains, chain_index (unbounded)",
-    "thorough": "full runs: b<=8, t<=8, n<=8; lemmas unbounded",
+    "quick": "full runs: every b<=6, t in 1..6, n in 1..6 (solver-enumerated); one-iteration lemma: arbitrary b>=0, t>=1, n>=1 and iteration index (unbounded integers); generator selection: arbitrary seed, n_chains, chain_index (unbounded)",
+    "thorough": "full runs: b<=16, t<=16, n<=16; lemmas unbounded",
 }
 ASSUMPTIONS = [
     "numpy SeedSequence(seed).spawn(n)[i] is modelled as an injective constructor child(seed, i); default_rng(x) as a generator determined by x",
@@ -17,7 +17,7 @@ BUDGET_S = {"quick": 120, "thorough": 900}
 
 
 def configs(tier, seed):
-    m = 4 if tier == "quick" else 8
+    m = 6 if tier == "quick" else 16
     return [dict(name="schedule", h="schedule", bmax=m, tmax=m, nmax=m),
             dict(name="iteration-lemma", h="lemma"),
             dict(name="stream", h="stream"),
